@@ -1,0 +1,174 @@
+//go:build verif
+
+// Machine-checked contracts (Gobra-style //@ comments) for the verification harness in /verif.
+// This file contains no code; it is compiled only under the build tag "verif".
+package state
+
+// ---------------------------------------------------------------------------------------------
+// snapshot / revert (C11): every mutator journals the previous value before it changes anything, every journal entry
+// restores exactly what it recorded, and a revert replays the entries above the snapshot backwards, once each
+
+// revisions are kept in strictly increasing id order, each pointing into the journal
+//@ pred wfRevs(s *StateDB) = s != nil && s.journal != nil && forall(a, 0, len(s.validRevisions), forall(b, 0, len(s.validRevisions), a < b ==> s.validRevisions[a].id < s.validRevisions[b].id)) \
+//@      && forall(a, 0, len(s.validRevisions), s.validRevisions[a].id < s.nextRevisionId && 0 <= s.validRevisions[a].journalIndex && s.validRevisions[a].journalIndex <= len(s.journal.entries))
+
+//@ func (*journal).length
+//@   props C11
+//@   requires j != nil
+//@   pure
+//@   ensures result == len(j.entries)
+
+//@ func (*StateDB).Snapshot
+//@   props C11
+//@   requires self != nil
+//@   invariant-assumed wfRevs(self)
+//@   trusted-assigns self.nextRevisionId, self.validRevisions, self.validRevisions[*]
+//@   ensures  [fresh-revision-id] result == old(self.nextRevisionId) && self.nextRevisionId == result + 1
+//@   ensures  [one-more-revision] len(self.validRevisions) == old(len(self.validRevisions)) + 1
+// (appending a struct value to a slice of structs is outside what the engine models precisely: the content of the new
+// element and the preservation of the old ones are assumed, not proved)
+//@   trusted-ensures self.validRevisions[len(self.validRevisions)-1].id == result && self.validRevisions[len(self.validRevisions)-1].journalIndex == len(self.journal.entries)
+//@   trusted-ensures forall(a, 0, old(len(self.validRevisions)), self.validRevisions[a].id == old(self.validRevisions[a].id) && self.validRevisions[a].journalIndex == old(self.validRevisions[a].journalIndex))
+//@   trusted-ensures wfRevs(self)
+
+//@ func (*StateDB).RevertToSnapshot
+//@   props C11
+//@   requires self != nil
+//@   invariant-assumed wfRevs(self)
+//@   nosafety
+//@   trusted-assigns allbut(evmapp.EVMApp, gtypes.ExecuteResult)
+//@   atcall revert assert [journal-reverted-to-the-length-recorded-by-that-revision] arg_j == self.journal && arg_statedb == self && calls(revert) == 0 \
+//@              && exists(a, 0, len(self.validRevisions), self.validRevisions[a].id == revid && self.validRevisions[a].journalIndex == arg_snapshot)
+//@   ensures  [journal-reverted-once] calls(revert) == 1
+//@   ensures  [revision-found-by-id] 0 <= idx && idx < old(len(self.validRevisions)) && old(self.validRevisions[idx].id) == revid && len(self.validRevisions) == idx
+//@   ensures  [this-and-later-revisions-invalidated] forall(a, 0, len(self.validRevisions), self.validRevisions[a].id < revid) && len(self.validRevisions) <= old(len(self.validRevisions))
+
+//@ func (*journal).revert
+//@   props C11
+//@   requires j != nil && 0 <= snapshot && snapshot <= len(j.entries)
+//@   nosafety
+// (no journal entry touches the list of revisions: assumed frame)
+//@   trusted-assigns allbut(revision)
+//@   trusted-ensures statedb.validRevisions == old(statedb.validRevisions) && statedb.journal == old(statedb.journal)
+//@   atcall revert assert [entries-undone-backwards-once-each] arg_recv == j.entries[len(j.entries) - 1 - calls(revert)] && arg0 == statedb && len(j.entries) - 1 - calls(revert) >= snapshot
+//@   ensures  [every-entry-above-the-snapshot-undone] calls(revert) == old(len(j.entries)) - snapshot
+//@   ensures  [journal-truncated-to-the-snapshot] len(j.entries) == snapshot
+//@   loop 0 invariant snapshot - 1 <= i && i <= len(j.entries) - 1 && calls(revert) == len(j.entries) - 1 - i && len(j.entries) == old(len(j.entries)) && j.entries == old(j.entries)
+
+//@ func (*journal).append
+//@   props C11
+//@   requires j != nil && entry != nil
+//@   nosafety
+//@   assigns  j.entries, j.entries[*], j.dirties[*]
+//@   ensures  [entry-appended-last] len(j.entries) == old(len(j.entries)) + 1 && j.entries[len(j.entries)-1] == entry
+//@   ensures  [earlier-entries-kept] forall(a, 0, old(len(j.entries)), j.entries[a] == old(j.entries[a]))
+
+// ----- journal entries restore what they recorded
+
+//@ func (refundChange).revert
+//@   props C11
+//@   requires s != nil
+//@   assigns  s.refund
+//@   ensures  [refund-restored] s.refund == ch.prev
+
+//@ func (nonceChange).revert
+//@   props C11
+//@   requires s != nil && ch.account != nil
+//@   nosafety
+//@   atcall getStateObject set gObj = result
+//@   atcall setNonce assert [nonce-restored-on-the-recorded-account] arg_self == gObj && arg_nonce == ch.prev && calls(getStateObject) == 1
+//@   ensures  calls(setNonce) == 1
+
+//@ func (balanceChange).revert
+//@   props C11
+//@   requires s != nil && ch.account != nil
+//@   nosafety
+//@   atcall getStateObject set gObj = result
+//@   atcall setBalance assert [balance-restored-on-the-recorded-account] arg_self == gObj && arg_amount == ch.prev && calls(getStateObject) == 1
+//@   ensures  calls(setBalance) == 1
+
+//@ func (storageChange).revert
+//@   props C11
+//@   requires s != nil && ch.account != nil
+//@   nosafety
+//@   atcall getStateObject set gObj = result
+//@   atcall setState assert [storage-slot-restored-on-the-recorded-account] arg_self == gObj && arg_key == ch.key && arg_value == ch.prevalue && calls(getStateObject) == 1
+//@   ensures  calls(setState) == 1
+
+//@ func (codeChange).revert
+//@   props C11
+//@   requires s != nil && ch.account != nil
+//@   nosafety
+//@   atcall getStateObject set gObj = result
+//@   atcall setCode assert [code-restored-on-the-recorded-account] arg_self == gObj && arg_code == ch.prevcode && calls(getStateObject) == 1
+//@   ensures  calls(setCode) == 1
+
+//@ func (suicideChange).revert
+//@   props C11
+//@   requires s != nil && ch.account != nil
+//@   nosafety
+//@   atcall getStateObject set gObj = result
+//@   atcall setBalance assert [balance-restored-after-suicide] arg_self == gObj && arg_amount == ch.prevbalance
+//@   onwrite stateObject.suicided assert [suicide-flag-restored] newval == ch.prev
+
+// ----- mutators journal the previous value first
+
+//@ ghost gObj Ref
+//@ ghost gCopy Ref
+
+//@ func (*stateObject).setNonce
+//@   props C11
+//@   nosafety
+//@   assigns  self.data.Nonce
+//@   ensures  self.data.Nonce == nonce
+
+//@ func (*stateObject).setBalance
+//@   props C11
+//@   nosafety
+//@   assigns  self.data.Balance
+//@   ensures  self.data.Balance == amount
+
+//@ func (*stateObject).SetNonce
+//@   props C11
+//@   requires self != nil && self.db != nil && self.db.journal != nil
+//@   nosafety
+//@   atcall append assert [previous-nonce-journalled-before-the-change] calls(setNonce) == 0 && calls(append) == 0 && typeIs(arg_entry, nonceChange) \
+//@              && unbox(arg_entry, nonceChange).prev == self.data.Nonce
+//@   atcall setNonce assert [changed-after-journalling] calls(append) == 1 && arg_self == self && arg_nonce == nonce
+//@   ensures  calls(append) == 1 && calls(setNonce) == 1
+
+//@ func (*stateObject).SetBalance
+//@   props C11
+//@   requires self != nil && self.db != nil && self.db.journal != nil
+//@   nosafety
+//@   atcall Set set gCopy = result
+//@   atcall Set assert [journalled-balance-is-a-copy-of-the-current-one] arg_x == self.data.Balance
+//@   atcall append assert [previous-balance-journalled-before-the-change] calls(setBalance) == 0 && calls(append) == 0 && calls(Set) == 1 && typeIs(arg_entry, balanceChange) \
+//@              && unbox(arg_entry, balanceChange).prev == gCopy
+//@   atcall setBalance assert [changed-after-journalling] calls(append) == 1 && arg_self == self && arg_amount == amount
+//@   ensures  calls(append) == 1 && calls(setBalance) == 1
+
+//@ func (*stateObject).SetState
+//@   props C11
+//@   requires self != nil && self.db != nil && self.db.journal != nil
+//@   nosafety
+//@   atcall GetState set gPrevSlot = result
+//@   atcall append assert [previous-slot-value-journalled-before-the-change] calls(setState) == 0 && calls(append) == 0 && calls(GetState) == 1 && typeIs(arg_entry, storageChange) \
+//@              && unbox(arg_entry, storageChange).prevalue == gPrevSlot && unbox(arg_entry, storageChange).key == key
+//@   atcall setState assert [changed-after-journalling] calls(append) == 1 && arg_self == self && arg_key == key && arg_value == value
+//@   ensures  calls(append) == calls(setState)
+//@ ghost gPrevSlot common.Hash
+
+//@ func (*StateDB).AddRefund
+//@   props C11
+//@   requires self != nil && self.journal != nil
+//@   nosafety
+//@   atcall append assert [previous-refund-journalled-before-the-change] calls(append) == 0 && typeIs(arg_entry, refundChange) && unbox(arg_entry, refundChange).prev == self.refund && self.refund == old(self.refund)
+//@   ensures  calls(append) == 1 && self.refund == (old(self.refund) + gas) % 18446744073709551616
+
+//@ func (*StateDB).SubRefund
+//@   props C11
+//@   requires self != nil && self.journal != nil
+//@   nosafety
+//@   atcall append assert [previous-refund-journalled-before-the-change] calls(append) == 0 && typeIs(arg_entry, refundChange) && unbox(arg_entry, refundChange).prev == self.refund && self.refund == old(self.refund)
+//@   ensures  calls(append) == 1 && self.refund == old(self.refund) - gas
